@@ -27,5 +27,9 @@ impl core::hash::BuildHasher for PoisonHasher {
 }
 
 #[cfg(kani)]
+#[path = "/verif/kani/gen.rs"]
+pub mod gen;
+
+#[cfg(kani)]
 #[path = "/verif/kani/harness_lib.rs"]
 mod harness;
